@@ -6,6 +6,7 @@
 package sniffing
 
 import (
+	"encoding/binary"
 	"errors"
 	"io/fs"
 
@@ -21,8 +22,9 @@ const (
 	QuicFlag_HeaderForm         = 7
 )
 const (
-	QuicFlag_HeaderForm_LongHeader  = 1
-	QuicFlag_LongPacketType_Initial = 0
+	QuicFlag_HeaderForm_LongHeader    = 1
+	QuicFlag_LongPacketType_Initial   = 0
+	QuicFlag_LongPacketType_InitialV2 = 1
 )
 
 const (
@@ -45,7 +47,7 @@ func IsLikelyQuicInitialPacket(buf []byte) bool {
 	if ((protectedFlag >> QuicFlag_HeaderForm) & 0b1) != QuicFlag_HeaderForm_LongHeader {
 		return false
 	}
-	if ((protectedFlag >> QuicFlag_LongPacketType) & 0b11) != QuicFlag_LongPacketType_Initial {
+	if ((protectedFlag >> QuicFlag_LongPacketType) & 0b11) != quicInitialPacketType(buf) {
 		return false
 	}
 
@@ -54,6 +56,16 @@ func IsLikelyQuicInitialPacket(buf []byte) bool {
 	// QUIC Initial packets for sniffing purposes.
 
 	return true
+}
+
+// quicInitialPacketType returns the long-header packet type bits that mark an
+// Initial packet for the version carried in buf[1:5]: 0b00 in QUIC v1 and the
+// drafts (RFC 9000 section 17.2), 0b01 in QUIC v2 (RFC 9369 section 3.2).
+func quicInitialPacketType(buf []byte) byte {
+	if len(buf) >= 5 && binary.BigEndian.Uint32(buf[1:5]) == quicutils.VersionNumberV2 {
+		return QuicFlag_LongPacketType_InitialV2
+	}
+	return QuicFlag_LongPacketType_Initial
 }
 
 func (s *Sniffer) SniffQuic() (d string, err error) {
@@ -109,7 +121,7 @@ func sniffQuicBlock(s *Sniffer, cryptos []*quicutils.CryptoFrameOffset, buf []by
 	if ((protectedFlag >> QuicFlag_HeaderForm) & 0b11) != QuicFlag_HeaderForm_LongHeader {
 		return cryptos, nil, ErrNotApplicable
 	}
-	if ((protectedFlag >> QuicFlag_LongPacketType) & 0b11) != QuicFlag_LongPacketType_Initial {
+	if ((protectedFlag >> QuicFlag_LongPacketType) & 0b11) != quicInitialPacketType(buf) {
 		return cryptos, nil, ErrNotApplicable
 	}
 
